@@ -97,8 +97,10 @@ build/gen/superlu_config.h: | build/gen
 build/gen $(B)/lib $(B)/h:
 	@mkdir -p $@
 
-$(B)/lib/SRC_sp_ienv.o: $(SLU_SRC)/SRC/sp_ienv.c | $(B)/lib build/gen/superlu_config.h
+$(B)/lib/SRC_sp_ienv.o: $(SLU_SRC)/SRC/sp_ienv.c Makefile | $(B)/lib build/gen/superlu_config.h
 	@$(CC) $(COMMON) $(VFLAGS) -Dsp_ienv=slu_default_sp_ienv -MMD -MP -c $< -o $@
+$(B)/lib/SRC_memory.o: $(SLU_SRC)/SRC/memory.c $(H)/vf_hooks.h Makefile | $(B)/lib build/gen/superlu_config.h
+	@$(CC) $(COMMON) $(VFLAGS) -Duser_bcopy=slu_user_bcopy -MMD -MP -c $< -o $@
 $(B)/lib/SRC_%.o: $(SLU_SRC)/SRC/%.c $(H)/vf_hooks.h | $(B)/lib build/gen/superlu_config.h
 	@$(CC) $(COMMON) $(VFLAGS) -MMD -MP -c $< -o $@
 $(B)/lib/CBLAS_%.o: $(SLU_SRC)/CBLAS/%.c $(H)/vf_hooks.h | $(B)/lib build/gen/superlu_config.h
